@@ -526,7 +526,7 @@ def replay(path: str) -> int:
 # batch
 # --------------------------------------------------------------------------
 
-TIERS = {"quick": dict(runs=1500, wall=900), "thorough": dict(runs=24000, wall=5400)}
+TIERS = {"quick": dict(runs=1500, wall=1400), "thorough": dict(runs=24000, wall=5400)}
 
 
 def run(tier: str) -> int:
